@@ -6,18 +6,17 @@ func MapArray(env *Zlisp, fun *SexpFunction, arr *SexpArray) (Sexp, error) {
 	result := make([]Sexp, len(arr.Val))
 	var err error
 
-	var firstTyp *RegisteredType
+	// Typ is left unset: SexpArray.Type() derives the slice type from the
+	// first element on demand. (It used to be set to the *element* type, so
+	// a variable holding a map result could not be re-bound to an array.)
 	for i := range arr.Val {
 		result[i], err = env.Apply(fun, arr.Val[i:i+1])
 		if err != nil {
-			return &SexpArray{Val: result, Typ: firstTyp, Env: env}, err
-		}
-		if firstTyp == nil {
-			firstTyp = result[i].Type()
+			return &SexpArray{Val: result, Env: env}, err
 		}
 	}
 
-	return &SexpArray{Val: result, Typ: firstTyp, Env: env}, nil
+	return &SexpArray{Val: result, Env: env}, nil
 }
 
 func ConcatArray(arr *SexpArray, rest []Sexp) (Sexp, error) {
